@@ -186,10 +186,15 @@ func runIPServer(ctx context.Context, log *slog.Logger, mtrcs *ipServerMetrics,
 			continue
 		}
 		txt1, id, err := udp.ReadTXTimestamp(conn)
+		for err == nil && int32(id-txid) < 0 {
+			// tx timestamp of an earlier packet that arrived late, skip it
+			txt1, id, err = udp.ReadTXTimestamp(conn)
+		}
 		if err != nil {
 			txt1 = txt0
 			log.LogAttrs(ctx, slog.LevelError, "failed to read packet tx timestamp",
 				slog.Any("error", err))
+			txid++
 		} else if id != txid {
 			txt1 = txt0
 			log.LogAttrs(ctx, slog.LevelError, "failed to read packet tx timestamp",
